@@ -31,3 +31,14 @@ Theorem C17_partial_optimality_checker_sound : forall P1 P2 V1 V2 n sigma, optim
   stable P1 P2 n sigma /\ forall tau, stable P1 P2 n tau -> (value V1 V2 n tau <= value V1 V2 n sigma)%Z.
 Proof. exact optimal_b_sound. Qed.
 Print Assumptions C17_partial_optimality_checker_sound.
+
+(* the elimination stage keeps a perfect matching and adds exactly the chosen rotations' weights, in SIMULATED value
+   (hypotheses perfectb / exposed_allb are evaluated by the kernel on every explored case) *)
+Theorem C17_partial_final_value : forall fixer Va Vb P1 P2 k1 k2 tau1 tau2 ff t,
+  double_tsf fixer Va Vb P1 P2 k1 k2 tau1 tau2 ff = Some t ->
+  IrvRot.perfectb (t_M0 t) = true -> IrvRot.exposed_allb (t_M0 t) (map (fun i => nth i (t_rots t) []) (t_S t)) = true ->
+  exists M', t_out t = Some M' /\ map fst M' = map fst (t_M0 t) /\ Permutation.Permutation (map snd M') (map snd (t_M0 t)) /\
+    IrvRot.pvalue (sim_side fixer Va P1 k1 tau1) (sim_side fixer Vb P2 k2 tau2) M' =
+    (IrvRot.pvalue (sim_side fixer Va P1 k1 tau1) (sim_side fixer Vb P2 k2 tau2) (t_M0 t) + IrvRot.zsum (fun i => nth i (t_ws t) 0%Z) (t_S t))%Z.
+Proof. exact C17_final_value. Qed.
+Print Assumptions C17_partial_final_value.
